@@ -859,9 +859,18 @@ def _check_path(prop, prog, meta, rec, timeout):
             v, solver, dt, out, qpath = solve(q, timeout=timeout, tag=o.id)
             o.time = dt
             if v == "unsat":
-                # equal over the reals but not the same operations: bit-identity is not established
-                o.status = FAILED; o.no_input = True
-                o.detail = "the two results are equal over the reals but are computed by different operation sequences; bit-identical results are not guaranteed"
+                # equal over the reals but not the same operations (beyond the order of the operands of + and *): bit-identity
+                # is not established. That alone is NOT a violation: only an input on which the real code gives different
+                # bits is (boundary lattice, replayed); without one the obligation is undecided.
+                o.status = UNDECIDED
+                o.detail = "the two results are equal over the reals but are computed by different operation sequences; bit-identical results are not established and no distinguishing input was found"
+                lw = lattice_witness(rec, prog, name)
+                if lw is not None:
+                    m, ty, tr = lw
+                    o.status = FAILED; o.no_input = False
+                    o.detail = "different operation sequences, and the real code gives different bits on a lattice point of the domain (%s): %s" % (ty, {k: float(x) for k, x in m.items()})
+                    o.replay = write_replay(prop, o, {"program": prog, "identical": name, "model_f64": {k: float(x) for k, x in m.items()},
+                                                      "replay_cmd": "%s --eval %s f64 %s" % (SBIN, prog, " ".join("%s=%r" % (k, float(x)) for k, x in m.items())), "transcript": tr})
             elif v == "sat":
                 o.status = FAILED; o.no_input = True
                 o.detail = "the two results differ (different terms, SMT finds a distinguishing point)"
@@ -878,6 +887,18 @@ def _check_path(prop, prog, meta, rec, timeout):
                                                               "transcript": tr})
             else:
                 o.status = UNDECIDED; o.detail = "terms differ syntactically and the solver could not decide their equality"
+            if o.status == FAILED and o.no_input:
+                # the solver's point did not reproduce on the real code: try the boundary lattice; a difference that no input
+                # of the real code shows is undecided, not an alarm
+                lw = lattice_witness(rec, prog, name)
+                if lw is not None:
+                    m, ty, tr = lw
+                    o.no_input = False
+                    o.replay = write_replay(prop, o, {"program": prog, "identical": name, "model_f64": {k: float(x) for k, x in m.items()},
+                                                      "replay_cmd": "%s --eval %s f64 %s" % (SBIN, prog, " ".join("%s=%r" % (k, float(x)) for k, x in m.items())), "transcript": tr})
+                else:
+                    o.status = UNDECIDED; o.no_input = False
+                    o.detail += " - but neither that point nor any lattice point of the domain reproduces a difference on the real code (undecided, not an alarm)"
         obs.append(o)
     return obs, {"feasible": True if feasible_known else None, "path": base}
 
